@@ -17,6 +17,7 @@ func init() {
 }
 
 func c29(r *core.Run) {
+	c29InArray(r)
 	w := r.W
 	fn := w.Func("pkg/hive2", "(*Service).onFindNode")
 	rpl := w.Func("pkg/hive2", "randPeersLimit")
